@@ -245,7 +245,6 @@ func (a *recAdapter) cUpdate(pt string, o, n []string) {
 	for i, x := range a.Content {
 		if x.Pt == pt && sameRule(x.Rule, o) {
 			a.Content[i] = prule{pt, append([]string(nil), n...)}
-			return
 		}
 	}
 }
